@@ -239,6 +239,20 @@ type St struct {
 	spc *T
 }
 
+// deferred calls of a frame are kept in its environment under deferKey (so that forks copy them)
+type deferred struct {
+	fn   Value
+	args []Value
+}
+type DeferV struct{ list []deferred }
+
+var deferKey ssa.Value = &ssa.Const{}
+
+type panicInfo struct {
+	val       Value
+	recovered bool
+}
+
 type pairKey struct {
 	a, b   *St
 	va, vb int
@@ -359,6 +373,7 @@ type Engine struct {
 	model    map[string]string // non-nil: replay mode (concrete interpretation)
 	worldUsed bool
 	roDepth   int
+	panicStack []*panicInfo
 	updateFromVersion *T
 	harnessPkg string
 	nativeMode bool
@@ -707,6 +722,28 @@ func (e *Engine) runFrame(fn *ssa.Function, args []Value, s *State) []Out {
 		cur.ver++
 		active = append(active, group[1:]...)
 		next, fin := e.execBlock(fn, cur)
+		if dv, ok := cur.env[deferKey].(DeferV); ok && len(dv.list) > 0 {
+			var kept []Out
+			for _, o := range fin {
+				if !o.panicked || isAbort(o.val) {
+					kept = append(kept, o)
+					continue
+				}
+				rec, still := e.runDefersPanicking(o, dv.list)
+				kept = append(kept, still...)
+				for _, r := range rec { // recovered: control continues at the function's recover block
+					if fn.Recover == nil {
+						kept = append(kept, Out{r.State, false, UnitV{}})
+						continue
+					}
+					st := &St{State: r.State, env: cloneEnv(cur.env)}
+					delete(st.env, deferKey)
+					e.enter(st, nil, fn.Recover)
+					next = append(next, succ{st, nil})
+				}
+			}
+			fin = kept
+		}
 		outs = append(outs, fin...)
 		for _, n := range next {
 			if n.back != nil {
@@ -737,6 +774,66 @@ func (e *Engine) runFrame(fn *ssa.Function, args []Value, s *State) []Out {
 		}
 	}
 	return res
+}
+
+func isAbort(v Value) bool {
+	if b, ok := v.(BytesV); ok {
+		s, _ := isConstBytes(b)
+		return s == "ABORT"
+	}
+	return false
+}
+
+// callValue runs a function value (closure or plain function).
+func (e *Engine) callValue(f Value, args []Value, s *State) []Out {
+	switch fv := f.(type) {
+	case ClosureV:
+		return e.runFrameBound(fv.fn.(*ssa.Function), args, fv.bind, s)
+	case *ssa.Function:
+		return e.runFrame(fv, args, s)
+	}
+	panic(fmt.Sprintf("call of %T", f))
+}
+
+// runDefersPanicking runs the deferred calls of a panicking frame (LIFO); recover() inside them returns the
+// panic value and stops the panic. Returns the recovered outcomes and the ones still (or newly) panicking.
+func (e *Engine) runDefersPanicking(o Out, list []deferred) (recovered, panicking []Out) {
+	type st struct {
+		out Out
+		rec bool
+	}
+	cur := []st{{o, false}}
+	for i := len(list) - 1; i >= 0; i-- {
+		var next []st
+		for _, c := range cur {
+			var info *panicInfo
+			if !c.rec {
+				info = &panicInfo{val: c.out.val}
+			}
+			e.panicStack = append(e.panicStack, info)
+			outs := e.callValue(list[i].fn, list[i].args, c.out.State)
+			e.panicStack = e.panicStack[:len(e.panicStack)-1]
+			for _, o2 := range outs {
+				switch {
+				case o2.panicked: // a new panic replaces the old one
+					next = append(next, st{Out{o2.State, true, o2.val}, false})
+				case c.rec || (info != nil && info.recovered):
+					next = append(next, st{Out{o2.State, false, UnitV{}}, true})
+				default:
+					next = append(next, st{Out{o2.State, true, c.out.val}, false})
+				}
+			}
+		}
+		cur = next
+	}
+	for _, c := range cur {
+		if c.rec {
+			recovered = append(recovered, c.out)
+		} else {
+			panicking = append(panicking, c.out)
+		}
+	}
+	return
 }
 
 func (e *Engine) enter(s *St, from, to *ssa.BasicBlock) {
@@ -967,7 +1064,7 @@ func (e *Engine) execBlock(fn *ssa.Function, s *St) ([]succ, []Out) {
 				panic("unop " + in.Op.String())
 			}
 		case *ssa.BinOp:
-			if in.Op == token.QUO || in.Op == token.REM { // the VM faults on a zero divisor
+			if _, isInt := e.get(s, in.Y).(IntV); (in.Op == token.QUO || in.Op == token.REM) && isInt { // the VM faults on a zero divisor
 				d := e.get(s, in.Y).(IntV).t
 				z := Eq(d, I(0))
 				if z.isC() && z.b {
@@ -981,7 +1078,11 @@ func (e *Engine) execBlock(fn *ssa.Function, s *St) ([]succ, []Out) {
 					return []succ{{st, nil}}, []Out{{faulted, true, constBytes("division by zero")}}
 				}
 			}
-			s.env[in] = e.wrapNative(in.Type(), in.Op, binop(in.Op, e.get(s, in.X), e.get(s, in.Y)))
+			var bres Value
+			if f := catchFault(func() { bres = binop(in.Op, e.get(s, in.X), e.get(s, in.Y)) }); f != "" {
+				return nil, []Out{{s.State, true, constBytes(f)}}
+			}
+			s.env[in] = e.wrapNative(in.Type(), in.Op, bres)
 		case *ssa.MakeMap:
 			s.env[in] = MapV{e.alloc(s.State, MapObj{})}
 		case *ssa.MapUpdate:
@@ -1038,6 +1139,34 @@ func (e *Engine) execBlock(fn *ssa.Function, s *St) ([]succ, []Out) {
 				bind = append(bind, e.get(s, b))
 			}
 			s.env[in] = ClosureV{in.Fn.(*ssa.Function), bind}
+		case *ssa.Defer:
+			var dargs []Value
+			for _, a := range in.Call.Args {
+				dargs = append(dargs, e.get(s, a))
+			}
+			dv, _ := s.env[deferKey].(DeferV)
+			s.env[deferKey] = DeferV{append(append([]deferred(nil), dv.list...), deferred{e.get(s, in.Call.Value), dargs})}
+		case *ssa.RunDefers:
+			dv, _ := s.env[deferKey].(DeferV)
+			delete(s.env, deferKey)
+			for i := len(dv.list) - 1; i >= 0; i-- {
+				e.panicStack = append(e.panicStack, nil)
+				outs := e.callValue(dv.list[i].fn, dv.list[i].args, s.State)
+				e.panicStack = e.panicStack[:len(e.panicStack)-1]
+				if len(outs) != 1 || outs[0].panicked {
+					panic("deferred call on the normal path forks or panics: not modelled")
+				}
+				s.State = outs[0].State
+			}
+		case *ssa.Field:
+			switch sv := e.get(s, in.X).(type) {
+			case StructV:
+				s.env[in] = sv.f[in.Field]
+			case NullV:
+				return nil, []Out{{s.State, true, constBytes("field of Null")}}
+			default:
+				panic(fmt.Sprintf("Field of %T", sv))
+			}
 		case *ssa.Extract:
 			s.env[in] = e.get(s, in.Tuple).(TupleV).f[in.Index]
 		case *ssa.MakeInterface:
@@ -1208,6 +1337,22 @@ func (e *Engine) wrapNative(t types.Type, op token.Token, v Value) Value {
 	return v
 }
 
+type vmFault struct{ msg string }
+
+func catchFault(f func()) (msg string) {
+	defer func() {
+		if r := recover(); r != nil {
+			if vf, ok := r.(vmFault); ok {
+				msg = vf.msg
+				return
+			}
+			panic(r)
+		}
+	}()
+	f()
+	return ""
+}
+
 func binop(op token.Token, x, y Value) Value {
 	if _, ok := y.(NullV); ok {
 		_, xn := x.(NullV)
@@ -1245,6 +1390,15 @@ func binop(op token.Token, x, y Value) Value {
 		case token.NEQ:
 			return BoolV{Not(Eq(xb.t, yb.t))}
 		}
+	}
+	_, xn := x.(NullV)
+	_, yn := y.(NullV)
+	if xn || yn { // Null operand (an unset storage item asserted to int): comparisons are false, arithmetic faults
+		switch op {
+		case token.LSS, token.LEQ, token.GTR, token.GEQ:
+			return BoolV{tFalse}
+		}
+		panic(vmFault{"invalid conversion: Null/Integer"})
 	}
 	a, b := x.(IntV).t, y.(IntV).t
 	switch op {
@@ -1289,6 +1443,11 @@ func (e *Engine) coerce(s *St, v Value, t types.Type) []coerced {
 			case IntV:
 				return one(x)
 			case NullV:
+				// the VM's type assertion is a no-op: Null stays Null and faults in arithmetic later; harness code
+				// (plain Go semantics are wanted there) reads it as 0
+				if s.blk != nil && !inHarnessFile(s.blk.Parent()) && !e.nativeMode {
+					return one(x)
+				}
 				return one(IntV{I(0)})
 			case BytesV: // little-endian two's complement
 				return one(IntV{bytesToInt(x.b)})
